@@ -51,7 +51,7 @@ void harness(void)
 {
 	char *files[] = {"f", NULL};
 	char text[64], addr[32], cmd[64], want[160], out[160], *got;
-	int i, form, c, N, M, a1 = 0, a2 = 0, naddr = 0, bad = 0, cur0, addtext, zero_ok;
+	int i, form, c, N, M, a1 = 0, a2 = 0, naddr = 0, bad = 0, cur0, tn, addtext, zero_ok;
 	env_mkfile("f", "x\n", 2, 5);
 	env_mkfile("rf", "F1\nF2\n", 6, 5);
 	exh_start(files);
@@ -125,8 +125,16 @@ void harness(void)
 		static const char *cs[] = {"d", "y x", "pu x", "p", "=", "ka", "a", "i", "c", "r rf", "rs y", "@ z", "y X"};
 		snprintf(cmd, sizeof(cmd), "%s%s", addr, cs[c]);
 	}
+	/* the text block of a / i / c: two lines, one line, or none at all (the lone "." comes at once) */
+	tn = 2;
+	if (c == 6 || c == 7 || c == 8) {
+		tn = symx_u8("textlines");
+		symx_assume(tn <= 2);
+		tn = symx_conc(tn);
+	}
 	if (c == 6 || c == 7 || c == 8 || c == 10)
-		exh_input("T1\nT2\n.\n");
+		exh_input(tn == 2 ? "T1\nT2\n.\n" : tn == 1 ? "T1\n.\n" : ".\n");
+	symx_observe("textlines", tn);
 	symx_observe_mem("cmd", cmd, strlen(cmd) + 1);
 	symx_observe("cur", cur0);
 	out[0] = 0;
@@ -171,21 +179,24 @@ void harness(void)
 			marka = ML[a2 - 1];
 			break;
 		case 6:		/* a: after the addressed line */
-			mins(a2, mnew("T1"));
-			mins(a2 + 1, mnew("T2"));
-			mcur = a2 + 2;
+			for (k = 0; k < tn; k++)
+				mins(a2 + k, mnew(k ? "T2" : "T1"));
+			mcur = tn ? a2 + tn : a2 ? a2 : 1;	/* no text: the addressed line (the first one for 0a) */
 			break;
 		case 7:		/* i: before the addressed line (0i: before the first line) */
 			k = a2 ? a2 : 1;	/* one-address command: the last address counts */
-			mins(k - 1, mnew("T1"));
-			mins(k, mnew("T2"));
-			mcur = k + 1;
+			{
+				int j;
+				for (j = 0; j < tn; j++)
+					mins(k - 1 + j, mnew(j ? "T2" : "T1"));
+				mcur = tn ? k - 1 + tn : k - 1 >= 1 ? k - 1 : 1;	/* no text: the line before, or the first one */
+			}
 			break;
 		case 8:		/* c (0c: nothing is replaced, the text goes before the first line) */
 			if (!a1) {
-				mins(0, mnew("T1"));
-				mins(1, mnew("T2"));
-				mcur = 2;
+				for (k = 0; k < tn; k++)
+					mins(k, mnew(k ? "T2" : "T1"));
+				mcur = tn ? tn : 1;
 				break;
 			}
 			for (k = a1; k <= a2; k++) {
@@ -193,9 +204,9 @@ void harness(void)
 				if (ML[a1 - 1] == markb) markb = -2;
 				mdel(a1 - 1);
 			}
-			mins(a1 - 1, mnew("T1"));
-			mins(a1, mnew("T2"));
-			mcur = a1 + 1;
+			for (k = 0; k < tn; k++)
+				mins(a1 - 1 + k, mnew(k ? "T2" : "T1"));
+			mcur = tn ? a1 - 1 + tn : a1 - 1 >= 1 ? a1 - 1 : 1;	/* no text: the line before the range, or the first one */
 			break;
 		case 9:		/* r rf: after the last addressed line */
 			mins(a2, mnew("F1"));
